@@ -231,7 +231,12 @@ class Gen:
         objvars = [(v, k[1]) for v, k in env if isinstance(k, tuple) and k[0] == 'obj'
                    and self.usable_ptrs(k[1], links=False, kind=kind)]
         if objvars:
-            choices += ['vprop', 'vprop']
+            choices += ['vprop', 'vprop', 'vprop']
+        lobjvars = [(v, p, p2) for v, k in env if isinstance(k, tuple) and k[0] == 'obj'
+                    for p in self.usable_ptrs(k[1], links=True)
+                    for p2 in self.usable_ptrs(p.target[1], links=False, kind=kind)]
+        if lobjvars:
+            choices += ['vlinkprop', 'vlinkprop']
         if d > 0:
             choices += ['objprop', 'binop', 'coalesce', 'ifelse', 'setlit']
             if kind == 'int':
@@ -245,7 +250,7 @@ class Gen:
             if self.o.params:
                 choices.append('param')
             if self.o.globals_ and kind in ('int', 'str'):
-                choices.append('global')
+                choices += ['global', 'global']
             choices.append('subq')
         c = self.pick(choices)
         if c == 'lit':
@@ -264,6 +269,10 @@ class Gen:
             v, t = self.pick(objvars)
             p = self.pick(self.usable_ptrs(t, links=False, kind=kind))
             return f'{v}.{p.name}'
+        if c == 'vlinkprop':
+            v, p, p2 = self.pick(lobjvars)
+            self.f('var-link')
+            return f'{v}.{p.name}.{p2.name}'
         if c == 'objprop':
             cands = [t for t in self.info.types if self.usable_ptrs(t, links=False, kind=kind)]
             t = self.pick(cands)
@@ -399,7 +408,12 @@ class Gen:
         vars_ = [v for v, k in env if isinstance(k, tuple) and k[0] == 'obj'
                  and (k[1] == t or k[1] in subs)]
         if vars_:
-            choices += ['var', 'var']
+            choices += ['var', 'var', 'var', 'var']
+        lvars = [(v, k[1], p) for v, k in env if isinstance(k, tuple) and k[0] == 'obj'
+                 for p in self.usable_ptrs(k[1], links=True)
+                 if p.target[1] == t or p.target[1] in subs]
+        if lvars:
+            choices += ['varlink', 'varlink', 'varlink']
         if prefix:
             pl = [p for p in self.usable_ptrs(prefix, links=True)
                   if p.target[1] == t or p.target[1] in subs]
@@ -436,6 +450,10 @@ class Gen:
             return self.pick(subs)
         if c == 'var':
             return self.pick(vars_)
+        if c == 'varlink':
+            v, _vt, p = self.pick(lvars)
+            self.f('var-link')
+            return f'{v}.{p.name}'
         if c == 'plink':
             p = self.pick(pl)
             self.f('partial-path')
@@ -671,7 +689,11 @@ class Gen:
         if self.o.group:
             forms.append('group')
         if self.o.dml:
-            forms += ['dml', 'dml', 'with-dml', 'for-dml']
+            forms += ['dml', 'dml', 'with-dml', 'with-dml', 'for-dml']
+            if self.o.group:
+                forms.append('with-dml-group')
+        if self.o.globals_:
+            forms.append('globals')
         form = self.pick(forms)
         self.f('stmt:' + form)
         env: list = []
@@ -740,13 +762,51 @@ class Gen:
             t = self.pick(self.info.concrete)
             text = self.dml(t, env, None, d - 1)
             return text[1:-1]
+        if form == 'globals':
+            parts = [self.pick(['global page', 'global cur_name', 'global cur_user.name',
+                                'global page', 'global cur_name'])
+                     for _ in range(self.i(2, 3))]
+            for p in parts:
+                self.uses_globals.add(p.split()[1].split('.')[0])
+            if self.i(0, 1):
+                parts.insert(self.i(0, len(parts)), self.anyset(env, None, d - 1, paren=True))
+            self.f('global')
+            self.f('tuple')
+            if self.i(0, 2) == 0:
+                t = self.pick(self.info.concrete)
+                nm = self.fresh('c')
+                return (f'select {t} {{ {nm} := {parts[0]} }} filter '
+                        f'{self.scalar("bool", env, t, 1)} or exists ({parts[1]})')
+            return 'select (' + ', '.join(parts) + ')'
+        if form == 'with-dml-group':
+            t = self.pick(self.info.concrete)
+            v = self.fresh('w')
+            with self.within('with'):
+                b = self.dml(t, env, None, d - 1)
+            t2 = self.pick([x for x in self.info.concrete
+                            if [p for p in self.usable_ptrs(x, links=False) if not p.multi]])
+            p = self.pick([p for p in self.usable_ptrs(t2, links=False) if not p.multi])
+            self.f('with')
+            self.f('group')
+            g = f'with {v} := {b} group {t2} by .{p.name}'
+            c = self.i(0, 2)
+            if c == 0:
+                return g
+            if c == 1:
+                return f'select count(({g}))'
+            return f'select (select ({g})) {{ key: {{ {p.name} }} }}'
         if form == 'with-dml':
             t = self.pick(self.info.concrete)
             v = self.fresh('w')
             with self.within('with'):
                 b = self.dml(t, env, None, d - 1)
-            body = self.anyset(env + [(v, ('obj', t))], None, d - 1, paren=True)
+            env2 = env + [(v, ('obj', t))]
             self.f('with')
+            if self.i(0, 1):
+                parts = [self.anyset(env2, None, max(d - 1, 1), paren=True) for _ in range(self.i(2, 3))]
+                self.f('tuple')
+                return f'with {v} := {b} select (' + ', '.join(parts) + ')'
+            body = self.anyset(env2, None, d - 1, paren=True)
             return f'with {v} := {b} select {body}'
         if form == 'for-dml':
             t = self.pick(self.info.concrete)
